@@ -18,7 +18,8 @@ RULE = ('Random POSIX rule triples: start / end in {Mm.w.d (w 1..5, d 0..6), Jn,
         'instants; a disagreement between the two oracles makes the run inconclusive.  Also: rule-less strings are fixed '
         'offsets; "GMT+h" / "UTC-h" mean h hours ahead / behind unless posix_offset=True; malformed strings (unknown '
         'characters, missing or surplus rule fields) must raise ValueError and nothing else.  Non-trivial = instant within 2 h '
-        'of a transition; distinct = (zone kind, rule-form pair, hemisphere, saving, time class, probe offset).')
+        'of a transition; distinct = (zone kind, rule-form pair, hemisphere, saving, time class, probe offset).'
+        ' Directed triples every run: day numbers around 29 February and the month ends in J / n form, week 5, daylight time exactly UTC, 30 m / 2 h savings with hh:mm:ss rule times; strings with hh:mm:ss offsets may be rejected by tzstr with ValueError (outside the quantifier) but never misread.')
 ASSUMPTIONS = ['vf/oracles/posix_tz_ref.py is POSIX.1 TZ semantics; glibc is the second opinion',
                'a string without rule ("EST5EDT") uses dateutil\'s documented default rule and is not compared with glibc',
                'known finding K3: M-form rules whose standard-time-of-day falls outside [0, 24 h) (classified on the rule triple)']
